@@ -102,7 +102,7 @@ def _xsm_relabellings(rep: C.Report, tier: str):
         rep.case(key=("xsm-int-guess", nm_))
         rep.count("xsm runs with integer-typed phase guesses")
         dev = max(abs(a - b) for P_, Q_ in zip(ph, base_phases) for a, b in zip(P_, Q_))
-        if dev > 1e-3 or got["vw"] is None or abs(got["vw"] - base["vw"]) > 2e-3:
+        if not dev <= 0.001 or got['vw'] is None or (not abs(got['vw'] - base['vw']) <= 0.002):
             rep.violation(f"two-field GeV-like model (Tn=300): {nm_} give different phase locations / wall velocity than the same guesses typed as floats",
                           {"variant": nm_, "phases_at_Tn(reference frame)": ph, "with_float_guesses": base_phases, "max_deviation": dev,
                            "vw": got["vw"], "vw_float_guesses": base["vw"]}, finding_key="C08:xsm:integer-guess")
